@@ -61,7 +61,7 @@ class SumWorker(Task):
         red = reduce_const(ex, "sum", list(fab.shape), elem, cond=cond)
         v = out.value
         ok = is_z3(v) or isinstance(v, (int, float))
-        ctx.oblige("post.is-scalar", ok, "P")
+        ctx.structure("post.is-scalar", ok)
         if ok:
             ctx.oblige("post.dV-times-sum-over-selected-cells", to_real(v) == dV * red, "P")
 
